@@ -237,7 +237,7 @@ pub broadcast axiom fn ax_strv_nonempty(s: Seq<char>) ensures #[trigger] strv(s)
     // (final(fs).seen, recorded by vfs_lock_exclusive), and the reply says what happened
     (res is Ok && !safe_join_none(pv(root), path@)) ==> exists|m: Response| w_written(&*final(w)) == w_written(&*old(w)) + #[trigger] frame_of(m)
         && del_reply_ok(m, *old(fs), *final(fs), joinv(pv(root), strv(path@)), hv(expected)),
-//@replace /(?s)std::fs::OpenOptions::new\(\)\s*\.create\(true\)\s*\.truncate\(false\)\s*\.write\(true\)\s*\.open\(lockdir\.join\("commit\.lock"\)\)/ => vfs_open_lock(lockdir.join("commit.lock"), Tracked(fs))
+//@replace /(?s)std::fs::OpenOptions::new\(\)\s*\.create\(true\)\s*\.truncate\(false\)\s*\.write\(true\)\s*\.open\(((?:[^()]|\((?:[^()]|\([^()]*\))*\))*)\)/ => vfs_open_lock(\1, Tracked(fs))
 //@replace? /lf\.lock_exclusive\(\)/ => vfs_lock_exclusive(&lf, Tracked(fs))
 //@replace? /fs2::FileExt::unlock\(&lf\)/ => vfs_unlock(&lf, Tracked(fs))
 //@replace? /current_hash\(((?:[^()]|\((?:[^()]|\([^()]*\))*\))*)\)/ => current_hash(\1, Tracked(&*fs)) #all
@@ -341,8 +341,9 @@ pub fn drain_content<R: Read>(r: &mut R, len: u64) -> (res: std::io::Result<u64>
 //@replace? /std::fs::File::create\(((?:[^()]|\((?:[^()]|\([^()]*\))*\))*)\)/ => vfs::File::create(\1, Tracked(fs)) #all
 //@replace? /tf\.write_all\(((?:[^()]|\((?:[^()]|\([^()]*\))*\))*)\)/ => tf.write_all(\1, Tracked(fs)) #all
 //@replace? /tf\.sync_all\(\)/ => tf.sync_all(Tracked(fs)) #all
+//@replace? /tf\.seek\(((?:[^()]|\((?:[^()]|\([^()]*\))*\))*)\)/ => tf.seek(\1, Tracked(fs)) #all
 //@replace? /std::fs::remove_file\(((?:[^()]|\((?:[^()]|\([^()]*\))*\))*)\)/ => vfs_remove_file(\1, Tracked(fs)) #all
-//@replace /(?s)std::fs::OpenOptions::new\(\)\s*\.create\(true\)\s*\.truncate\(false\)\s*\.write\(true\)\s*\.open\(lockdir\.join\("commit\.lock"\)\)/ => vfs_open_lock(lockdir.join("commit.lock"), Tracked(fs))
+//@replace /(?s)std::fs::OpenOptions::new\(\)\s*\.create\(true\)\s*\.truncate\(false\)\s*\.write\(true\)\s*\.open\(((?:[^()]|\((?:[^()]|\([^()]*\))*\))*)\)/ => vfs_open_lock(\1, Tracked(fs))
 //@replace? /lf\.lock_exclusive\(\)/ => vfs_lock_exclusive(&lf, Tracked(fs))
 //@replace? /fs2::FileExt::unlock\(&lf\)/ => vfs_unlock(&lf, Tracked(fs))
 //@replace? /current_hash\(((?:[^()]|\((?:[^()]|\([^()]*\))*\))*)\)/ => current_hash(\1, Tracked(&*fs)) #all
@@ -355,7 +356,7 @@ pub fn drain_content<R: Read>(r: &mut R, len: u64) -> (res: std::io::Result<u64>
     broadcast use asp_path, asp_pathbuf, asp_pathbuf_val, asp_str, asp_string, ax_not_lockfile, ax_lock_not_staging;
     let ghost w0 = *fs;
     let ghost d = joinv(pv(root), strv(path@));
-//@at after /let tmp = tmp_of\(&dst\);/
+//@at after /let tmp = tmp_of\([^;]*\);/
     proof {
         assert(pbv(&dst) == d && inside(pv(root), d));
         let sfx = choose|sfx: PathV| pbv(&tmp) == pbv(&dst) + sfx && no_slash(sfx);
@@ -366,15 +367,15 @@ pub fn drain_content<R: Read>(r: &mut R, len: u64) -> (res: std::io::Result<u64>
     }
 //@at before /if let Some\(p\) = dst\.parent\(\)/
     proof { broadcast use ax_parent_inside; assert(pbv(&dst) == d && inside(pv(root), d)); assert(d != pv(root)) by { assert(d.len() > pv(root).len()); } }
-//@loop 0 invariant
+//@loop ~/hasher\.update/ invariant
             w0 == *old(fs), w0.root == pv(root), !safe_join_none(pv(root), path@), fs.log.len() >= 0,
-            buf@.len() == 256 * 1024, tf.path() == pbv(&tmp), is_staging(pbv(&tmp)), inside(pv(root), pbv(&tmp)),
+            buf@.len() == 256 * 1024, tf.path() == pbv(&tmp), !tf.displaced(), is_staging(pbv(&tmp)), inside(pv(root), pbv(&tmp)),
             fs.root == pv(root), !fs.lock, fs.private.contains(pbv(&tmp)), fs.nlock == w0.nlock,
             fs.files.contains_key(pbv(&tmp)), blake3::hasher_view(&hasher) == fs.files[pbv(&tmp)].bytes,
             live_same(fs.files, w0.files, Set::empty()),
-//@loop 0 decreases
+//@loop ~/hasher\.update/ decreases
             stream_of(&limited).len()
-//@at loop 0 entry
+//@at loop ~/hasher\.update/ entry
             let ghost wl = *fs;
 //@at? after /tf\.sync_all\(\)\?;/
         let ghost w_sync = *fs;
@@ -440,7 +441,7 @@ pub fn drain_content<R: Read>(r: &mut R, len: u64) -> (res: std::io::Result<u64>
                 assert forall|p: PathV| !is_staging(p) implies (#[trigger] fs.files.dom().contains(p)) == fs.seen.dom().contains(p)
                     && (fs.files.dom().contains(p) ==> fs.files[p].bytes == fs.seen[p].bytes) by { assert(p != pbv(&tmp)); }
             } }
-//@at loop 0 end
+//@at loop ~/hasher\.update/ end
             proof {
                 assert(fs.files.dom().contains(pbv(&tmp)));
                 assert forall|p: PathV| !is_staging(p) implies (#[trigger] fs.files.dom().contains(p)) == w0.files.dom().contains(p)
